@@ -148,34 +148,114 @@ def generate_dense(rw, rn, tier):
     shape = rn.choice(rf.SHAPES)
     snr = rn.choice(SNRS)
     nstrong = rw.choice([20, 30, 45, 60])
+    quiet_first = rw.random() < 0.5
+    fully_dense = quiet_first and rw.random() < 0.6   # not a single noise-only window in the packed buffer
     frames = []
-    pos = rw.choice([0, 0, 1, 3, 150])
-    for _ in range(nstrong):
+    pos = rw.choice([0, 0, 1, 3, 150]) if not fully_dense else 0
+
+    def packed(amp_choices):
         # pick long or short so that the frame's end leaves no aligned 200-sample
         # window inside the minimum gap that follows
-        want_long = ((pos + 240) % 200) in range(1, 160)
-        if not want_long and ((pos + 128) % 200) not in range(1, 160):
-            want_long = rw.random() < 0.5
+        # (in the fully dense variant prefer ends 40..120 samples into a window:
+        # then every window overlaps a frame by at least 40 samples)
+        good = range(40, 121) if fully_dense else range(1, 160)
+        want_long = ((pos + 240) % 200) in good
+        if not want_long and ((pos + 128) % 200) not in good:
+            want_long = ((pos + 240) % 200) in range(1, 160)
+            if not want_long and ((pos + 128) % 200) not in range(1, 160):
+                want_long = rw.random() < 0.5
         for _try in range(40):
             hx = gen_frame_hex(rw)
             if (len(hx) == 28) == want_long:
                 break
-        fs = rf.frame_samples(len(hx) * 4)
-        frames.append({"hex": hx, "start": pos, "amp": rw.choice([1.2, 1.3, 1.4]), "ripple": 0.0, "rseed": rw.getrandbits(31), "flips": []})
-        pos += fs + MIN_GAP
-    pos += rw.choice([400, 600, 1000])   # >= 2 aligned noise-only windows somewhere in here
-    for _ in range(rw.choice([1, 2, 4])):
-        hx = gen_frame_hex(rw)
-        fs = rf.frame_samples(len(hx) * 4)
-        frames.append({"hex": hx, "start": pos, "amp": rw.choice([0.3, 0.32, 0.4]), "ripple": 0.0, "rseed": rw.getrandbits(31), "flips": []})
-        pos += fs + rw.choice([MIN_GAP, 300, 800])
-    n = pos + rw.choice([0, 1, 100, 700])
+        return {"hex": hx, "start": pos, "amp": rw.choice(amp_choices), "ripple": 0.0, "rseed": rw.getrandbits(31), "flips": []}
+
+    for _ in range(nstrong):
+        if fully_dense and frames:
+            # strict steering: choose the gap (>= MIN_GAP, short enough that no
+            # window falls into it) and the frame kind so that the frame ends
+            # 40..120 samples into a window and every window keeps >= 30 samples
+            # of strong signal
+            e_prev = pos - MIN_GAP
+            r_prev = e_prev % 200
+            hit = None
+            for g in range(MIN_GAP, max(MIN_GAP + 1, 371 - r_prev)):
+                for fs_ in (240, 128):
+                    if 40 <= (e_prev + g + fs_) % 200 <= 120:
+                        hit = (g, fs_)
+                        break
+                if hit:
+                    break
+            if hit:
+                pos = e_prev + hit[0]
+                for _try in range(60):
+                    hx = gen_frame_hex(rw)
+                    if rf.frame_samples(len(hx) * 4) == hit[1]:
+                        break
+                f = {"hex": hx, "start": pos, "amp": rw.choice([1.3, 1.4]), "ripple": 0.0, "rseed": rw.getrandbits(31), "flips": []}
+                frames.append(f)
+                pos += rf.frame_samples(len(f["hex"]) * 4) + MIN_GAP
+                continue
+        f = packed([1.2, 1.3, 1.4])
+        frames.append(f)
+        pos += rf.frame_samples(len(f["hex"]) * 4) + MIN_GAP
+    tail = fully_dense and rw.random() < 0.6
+    if tail:
+        # the weak frame sits in the trailing partial 100-us window (which the
+        # noise estimate ignores) and the last complete window overlaps the last
+        # strong frame by 30-31 samples: the per-buffer estimate is all signal
+        e_prev = pos - MIN_GAP
+        r_prev = e_prev % 200
+        found = None
+        for g in range(MIN_GAP, max(MIN_GAP + 1, 399 - r_prev)):
+            for fs_, want_long in ((240, True), (128, False)):
+                if (e_prev + g + fs_) % 200 in (30, 31):
+                    found = (g, want_long)
+                    break
+            if found:
+                break
+        if found:
+            g, want_long = found
+            for _try in range(60):
+                hx = gen_frame_hex(rw)
+                if (len(hx) == 28) == want_long:
+                    break
+            st0 = e_prev + g
+            frames.append({"hex": hx, "start": st0, "amp": 1.4, "ripple": 0.0, "rseed": rw.getrandbits(31), "flips": []})
+            pos = st0 + rf.frame_samples(len(hx) * 4) + MIN_GAP
+            for _try in range(60):
+                hx = gen_frame_hex(rw)
+                if len(hx) == 14:
+                    break
+            frames.append({"hex": hx, "start": pos, "amp": rw.choice([0.3, 0.3, 0.32]), "ripple": 0.0, "rseed": rw.getrandbits(31), "flips": []})
+            n = pos + rf.frame_samples(len(hx) * 4) + rw.choice([0, 0, 1])
+        else:
+            tail = False
+    if tail:
+        pass
+    elif fully_dense:
+        for k in range(rw.choice([1, 2, 3])):
+            f = packed([0.3, 0.32, 0.4])
+            frames.append(f)
+            pos += rf.frame_samples(len(f["hex"]) * 4) + MIN_GAP
+            if k == 0 or rw.random() < 0.5:
+                f = packed([1.2, 1.4])
+                frames.append(f)
+                pos += rf.frame_samples(len(f["hex"]) * 4) + MIN_GAP
+        n = pos - MIN_GAP + rw.choice([0, 1, 30])
+    else:
+        pos += rw.choice([400, 600, 1000])   # >= 2 aligned noise-only windows somewhere in here
+        for _ in range(rw.choice([1, 2, 4])):
+            hx = gen_frame_hex(rw)
+            fs = rf.frame_samples(len(hx) * 4)
+            frames.append({"hex": hx, "start": pos, "amp": rw.choice([0.3, 0.32, 0.4]), "ripple": 0.0, "rseed": rw.getrandbits(31), "flips": []})
+            pos += fs + rw.choice([MIN_GAP, 300, 800])
+        n = pos + rw.choice([0, 1, 100, 700])
     windows = [{"n": n, "nseed": rn.getrandbits(31), "frames": frames}]
-    if rw.random() < 0.5:
+    if quiet_first:
         # a quiet buffer first: the floor is learnt low, then the packed buffer
-        # offers no noise-only window at all
-        windows.insert(0, {"n": rw.choice([400, 1000, 2000]), "nseed": rn.getrandbits(31),
-                           "frames": place_frames(rw, rw.choice([0, 0, 1]), 2000, 400, gen_frame_hex, 0.0) if False else []})
+        # offers (almost) no noise-only window
+        windows.insert(0, {"n": rw.choice([400, 1000, 2000]), "nseed": rn.getrandbits(31), "frames": []})
     if rw.random() < 0.5:
         windows.append({"n": rw.choice([2000, 4096]), "nseed": rn.getrandbits(31),
                         "frames": place_frames(rw, rw.choice([1, 2, 3]), 2000, rw.choice([0, 7, 400]), gen_frame_hex, 0.0)})
@@ -349,6 +429,13 @@ def execute(sc, keep_log=False):
         if "pk" in w and wi > 0 and w["pk"] < sc["windows"][wi - 1].get("pk", 0) * 0.5 and w["frames"]:
             stats.c["probe.noise_level_dropped_by_half_or_more"] += 1
         stats.c["noise." + no["shape"]] += 1
+        if no.get("regime") == "dense" and wi > 0 and len(w["frames"]) >= 20:
+            busy = [(f["start"], f["start"] + rf.frame_samples(len(f["hex"]) * 4)) for f in w["frames"]]
+            if not any(all(b <= a0 or a >= a0 + 200 for a, b in busy) for a0 in range(0, w["n"] - 199, 200)):
+                stats.c["probe.packed_buffer_without_any_quiet_window_after_a_quiet_one"] += 1
+                last = w["frames"][-1]
+                if last["amp"] < 0.4 and last["start"] >= (w["n"] // 200) * 200:
+                    stats.c["probe.weak_frame_in_trailing_partial_noise_window"] += 1
         if wi == 0 and no.get("regime") == "dense" and w["n"] > 12800:
             busy = [(f["start"], f["start"] + rf.frame_samples(len(f["hex"]) * 4)) for f in w["frames"]]
             if not any(all(b <= a0 or a >= a0 + 200 for a, b in busy) for a0 in range(0, 12800, 200)):
